@@ -444,6 +444,17 @@ def check_C13(cx):
         validate(cx, "T" + name, "TraceBootstrap", consts, rs, inv, {"a": "reset", "p": ""})
         if rs and len(cx.samples) < 3:
             cx.samples.append({"program": consts["Program"], "schedule": rs[0]["sched"][:30], "final": rs[0]["final"]})
+    # the shipped tcp factory / acceptor (transport/tcp) under the same oracle: free-running runs over loopback sockets
+    # (listeners, Bootstrap.Connect clients, plain TCP peers, Shutdown early or late); not gated, not validated by TLC
+    n = 120 if quick else 3000
+    tcases = [{"id": "tcp%d" % i, "kind": "boot", "listeners": cx.rnd.choice([1, 2]), "clients": cx.rnd.randrange(0, 5), "raw_peers": cx.rnd.randrange(0, 4),
+               "early_shut": cx.rnd.random() < 0.5, "late_listen": cx.rnd.random() < 0.3, "seed": cx.rnd.randrange(1, 1 << 30)} for i in range(n)]
+    for c in tcases:
+        c["_module"] = "tcp"
+    rs = run_driver(cx.driver, "tcp", tcases, cx.wd, tag="tcp")
+    cx.absorb(rs, tcases)
+    cx.extra_cov["real_tcp_runs"] = len(rs)
+    cx.extra_cov["real_tcp_runs_skipped_port_taken"] = sum(r.get("diverged", 0) for r in rs)
     cx.assume.append("channels are created with the bootstrap context (default); channel internals are abstracted (Channel.tla is their model)")
     return finish(cx, rule="cases = Listen/Async/Connect/Listener.Close programs with a concurrent Shutdown: TLC state-graph edge covers and seeded random "
                             "schedules executed on the real bootstrap with a gated mock factory/acceptor/executor; distinct_nontrivial = distinct Bootstrap.tla transitions replayed")
@@ -690,6 +701,20 @@ def check_C17(cx):
         rs = run_driver(cx.driver, "wire", cases, cx.wd, tag="big")
         cx.absorb(rs, cases)
         validate(cx, "TB%d_%d" % (wv, rv), "TraceWire", rc, rs, inv, {"op": "reset"})
+    # the transports the shipped tcp factory hands out (Connect and Accept side, socket options, buffer sizes) under the
+    # same stream oracle over loopback sockets: the peer must receive exactly the written bytes after every Flush and at
+    # Close, Read must return exactly the peer's bytes; free-running, segments are not observable so TLC is not involved
+    tvars = [(4, 4), (4, 0), (0, 4), (0, 0), (1, 1), (16, 3), (64, 64), (4096, 4096), (2048, 0), (0, 1024)]
+    tcases = []
+    for i in range(160 if quick else 4000):
+        wv, rv = tvars[i % len(tvars)]
+        rb = 16 if 0 < rv < 16 else rv
+        sizes = sorted(set([0, 1, 100] + [max(0, wv - 1), wv, wv + 1, 2 * wv + 1] + [max(1, rb - 1), rb, rb + 1]))
+        tcases.append({"id": "tcp%d" % i, "kind": "wire", "w": wv, "r": rv, "side": ("connect", "accept")[(i // len(tvars)) % 2],
+                       "frags": [max(1, rb - 1), 1, 2 * rb + 3, 1, 50], "random": 14, "sizes": sizes, "seed": cx.rnd.randrange(1, 1 << 30), "_module": "tcp"})
+    rs = run_driver(cx.driver, "tcp", tcases, cx.wd, tag="tcp")
+    cx.absorb(rs, tcases)
+    cx.extra_cov["real_tcp_runs"] = len(rs)
     cx.assume.append("the scripted in-memory net.Conn stands in for a TCP connection; bufio is modelled exactly (Go 1.23 semantics)")
     return finish(cx, rule="cases = Write/Writev/Flush/Read sequences on transport.NewTransport(conn, R, W) for the four wrapper variants; "
                             "distinct_nontrivial = distinct Wire.tla transitions replayed")
